@@ -22,7 +22,10 @@ limit (`shortcut n ∨ n.srcs.length ≤ a.maxSizeA` — the very test of `plan`
 * `adaptive_plain_next` : the common successor state is `nextState cfg st t dsts labels`;
 * `fits_iff_not_oversize` : the hypothesis is exactly "the plain monitor with
   `maxSize := a.maxSizeA` sees no oversize sub-net" (`oversizeB = false`);
-* `raise_rejected_when_fits` : both monitors reject a SubnetOversizeException on such a step.
+* `raise_rejected_when_fits` : both monitors reject a SubnetOversizeException on such a step;
+* `adaptive_iff_plain_movie` : the same equivalence for whole labelled movies (`AcceptsFromA` iff
+  C01/C02's `AcceptsFrom` with the adaptive limit as size limit) when no sub-net of any step along
+  the movie is oversize (`FitsAlong`).
 
 The per-group bridge is `Proofs/AdaptivePlain.finalOk_final0`: `finalSrcs` of the unreduced group
 is the plain monitor's `gSrcs` entry (`candsOfRow = realOfRow ++ [(none, B)]`) with the sources in
@@ -117,6 +120,47 @@ theorem raise_rejected_when_fits (a : ACfg) (cfg : Cfg) (hnc : cfg.numbaCap = fa
   · exact stepCheck_none_bad { cfg with maxSize := a.maxSizeA } hnc st t dsts hcap
       ((fits_iff_not_oversize a cfg st t dsts).mp hfit)
 
+/-! ### whole movies -/
+
+/-- along the labelled levels, starting from `st` and moving by `nextState`: every step is within
+the neighbour cap and every sub-net of every step fits the adaptive limit -/
+def FitsAlong (a : ACfg) (cfg : Cfg) : State → List LLevel → Prop
+  | _, [] => True
+  | st, lv :: rest =>
+    cappedB cfg st lv.t lv.dsts = false ∧
+    (∀ n ∈ stepNets cfg st lv.t lv.dsts, shortcut n = true ∨ n.srcs.length ≤ a.maxSizeA) ∧
+    FitsAlong a cfg (nextState cfg st lv.t lv.dsts lv.labels) rest
+
+/-- **Adaptive search gives exactly the result of plain linking when no group is oversize — whole
+movies.**  If no sub-net of any step exceeds the adaptive limit, the adaptive monitor accepts a
+labelled movie (step after step, adaptive claims judged) iff the plain monitor with that size
+limit accepts it (`Linker.AcceptsFrom`, the relation of C01 / C02). -/
+theorem adaptive_iff_plain_movie (a : ACfg) (cfg : Cfg)
+    (hdrop : cfg.drop = false) (hno : cfg.noOpt = false) (hnc : cfg.numbaCap = false)
+    (levels : List LLevel) (st : State) (hfit : FitsAlong a cfg st levels) :
+    AcceptsFromA a cfg st levels ↔ AcceptsFrom { cfg with maxSize := a.maxSizeA } st levels := by
+  induction levels generalizing st with
+  | nil => simp [AcceptsFromA, AcceptsFrom]
+  | cons lv rest ih =>
+    obtain ⟨hcap, hf, hrest⟩ := hfit
+    simp only [AcceptsFromA, AcceptsFrom]
+    constructor
+    · rintro ⟨st', r, f, h, hacc⟩
+      obtain ⟨c, r', b, h'⟩ :=
+        (adaptive_iff_plain a cfg hdrop hno hnc st lv.t lv.dsts hcap hf lv.labels st').mp ⟨r, f, h⟩
+      have hst : st' = nextState cfg st lv.t lv.dsts lv.labels := (stepCheckA_ok h).2.1
+      subst hst
+      exact ⟨_, c, r', b, false, h', (ih _ hrest).mp hacc⟩
+    · rintro ⟨st', c, r, b, cap, h, hacc⟩
+      have hcf : cap = false :=
+        stepCheck_cap_false (cfg := { cfg with maxSize := a.maxSizeA }) hno hcap h
+      subst hcf
+      obtain ⟨r', f, h'⟩ :=
+        (adaptive_iff_plain a cfg hdrop hno hnc st lv.t lv.dsts hcap hf lv.labels st').mpr ⟨c, r, b, h⟩
+      have hst : st' = nextState cfg st lv.t lv.dsts lv.labels := (stepCheckA_ok h').2.1
+      subst hst
+      exact ⟨_, r', f, h', (ih _ hrest).mpr hacc⟩
+
 /-! ### non-vacuity (tests, labelled as such) -/
 
 /-- adaptive limit 2: the two-source sub-net of `exCfgA / exStA` (Props/C12Algo) fits -/
@@ -137,6 +181,18 @@ example : ∀ n ∈ stepNets exCfgA exStA 1 [[1], [4]], shortcut n = true ∨ n.
     List.range, List.range.loop] at hn
   subst hn
   simp [exA2]
+
+/-- `FitsAlong` holds for the one-step movie of this example -/
+example : FitsAlong exA2 exCfgA exStA [{ t := 1, dsts := [[1], [4]], labels := [0, 1] }] := by
+  refine ⟨?_, ?_, trivial⟩
+  · simp [cappedB, nNeighbors, dist2, view, sqI, exCfgA, exStA]
+  · intro n hn
+    right
+    simp [stepNets, stepGroups, stepCands, subnets, candsOf, candsOfRow, distRow, dist2,
+      view, sqI, insCand, exCfgA, exStA, addSource, hasDest, realDests, getD', List.zipIdx,
+      List.range, List.range.loop] at hn
+    subst hn
+    simp [exA2]
 
 /-- the adaptive monitor accepts the near links, nothing reduced, one final group
 (`adaptive_nothing_reduced`, evaluated) … -/
